@@ -2,7 +2,9 @@
 """Runs every seeded change under /verif/seeded through the quick check of the property it breaks
 (and of related properties) and records what was reported. Applies each patch to /repo and undoes it."""
 import json, os, re, subprocess, sys, time
-SEEDED = "/verif/seeded"
+VERIF = os.path.dirname(os.path.dirname(os.path.abspath(__file__)))
+REPO = os.environ.get("VERIF_REPO", "/repo")
+SEEDED = os.path.join(VERIF, "seeded")
 RELATED = {"C03": ["C03", "C06", "C07"], "C09": ["C09", "C03"], "C10": ["C10", "C03", "C11"], "C12": ["C12", "C03"], "C16": ["C16", "C03"], "C04": ["C04", "C08"], "C08": ["C08", "C01"]}
 def sh(cmd, cwd=None, timeout=3000):
     p = subprocess.run(cmd, cwd=cwd, shell=True, capture_output=True, text=True, timeout=timeout)
@@ -15,14 +17,14 @@ for mid in sorted(os.listdir(SEEDED)):
         continue
     meta = json.load(open(os.path.join(d, "meta.json")))
     prop = meta["breaks_property"]
-    rc, out = sh("git diff --quiet && git apply %s/patch.diff" % d, "/repo")
+    rc, out = sh("git diff --quiet && git apply %s/patch.diff" % d, REPO)
     if rc != 0:
         print(mid, "patch does not apply / repo dirty", out[:200]); continue
     det = {}
     try:
         for p in RELATED.get(prop, [prop]):
             t = time.time()
-            rc, out = sh("./check %s --tier quick" % p, "/verif")
+            rc, out = sh("./check %s --tier quick" % p, VERIF)
             viol = [l for l in out.splitlines() if l.startswith("VIOLATION")]
             det[p] = {"exit": rc, "violations": len(viol), "concrete_failing_input": any("no-failing-input-found" not in l for l in viol) if viol else False,
                       "wall_s": round(time.time() - t, 1)}
@@ -32,7 +34,7 @@ for mid in sorted(os.listdir(SEEDED)):
                     r = json.load(open(m.group(1)))
                     det[p]["why"] = (r.get("why") or r.get("what") or "; ".join(r.get("broken_obligations", [])[:2]))[:300]
     finally:
-        sh("git checkout -- . && git clean -fdq", "/repo")
+        sh("git checkout -- . && git clean -fdq", REPO)
     meta["detected_by"] = det
     json.dump(meta, open(os.path.join(d, "meta.json"), "w"), indent=1)
     own = det.get(prop, {})
